@@ -143,35 +143,70 @@ theorem tryBodyT_val (idna : Idna) (r : Rep) (e : Enc) (units : List Nat) (base 
   | none => rfl
   | some b => cases b <;> rfl
 
-/-- every way a `do_parse` call with a handler can end in an exception -/
-theorem doParseWith_threw (handler : ObjR → ObjR) (idna : Idna) (o : ObjR) (e : Enc) (units : List Nat)
-    (base : Option (Option Rep)) (pre : Nat) (trace : List Rep) (k : Option Nat) (o' : ObjR)
-    (h : doParseWith handler idna o e units base pre trace k = (o', .threw)) :
-    -- before the `try`
-    o' = o ∨
-    -- inside: the handler ran on the half-built object
-    (∃ half ∈ trace, o' = handler { o.newUrl with rep := half }) ∨
-    -- `parse_search_params()`: the parse had succeeded
+theorem parseFinish_cases (ph : ObjR → ObjR) (o1 : ObjR) (res : Option Rep) (spFails : Bool) (o' : ObjR)
+    (en : ParseEnd) (h : parseFinish ph o1 res spFails = (o', en)) :
+    (∃ r', res = some r' ∧ spFails = true ∧ o1.sp.isSome = true ∧
+      o' = ph { o1 with rep := r', valid := true } ∧ en = .threw) ∨
+    (∃ r', res = some r' ∧ o' = { rep := r', valid := true, sp := parseSp r' o1.sp } ∧ en = .returned true) ∨
+    (res = none ∧ o' = o1.resetRecord ∧ en = .returned false) := by
+  unfold parseFinish at h
+  split at h
+  · rename_i r'
+    split at h
+    · rename_i hc
+      simp only [Bool.and_eq_true] at hc
+      left
+      exact ⟨r', rfl, hc.1, hc.2, (Prod.mk.inj h).1.symm, (Prod.mk.inj h).2.symm⟩
+    · right; left
+      exact ⟨r', rfl, (Prod.mk.inj h).1.symm, (Prod.mk.inj h).2.symm⟩
+  · right; right
+    exact ⟨rfl, (Prod.mk.inj h).1.symm, (Prod.mk.inj h).2.symm⟩
+
+theorem doParse_fin (handler ph : ObjR → ObjR) (idna : Idna) (o : ObjR) (e : Enc) (units : List Nat)
+    (base : Option (Option Rep)) (trace : List Rep) (o' : ObjR) (en : ParseEnd) (res : Option Rep) (spFails : Bool)
+    (hval : res = (tryBodyT idna o.rep e units base trace).val)
+    (hf : parseFinish ph o.newUrl res spFails = (o', en)) :
+    (o' = o ∧ en = .threw) ∨
+    (∃ half ∈ trace, o' = handler { o.newUrl with rep := half } ∧ en = .threw) ∨
     (∃ r', (tryBodyT idna o.rep e units base trace).val = some r' ∧ o.newUrl.sp.isSome = true ∧
-      o' = { o.newUrl with rep := r', valid := true }) := by
+      o' = ph { o.newUrl with rep := r', valid := true } ∧ en = .threw) ∨
+    (∃ r', (tryBodyT idna o.rep e units base trace).val = some r' ∧
+      o' = { rep := r', valid := true, sp := parseSp r' o.newUrl.sp } ∧ en = .returned true) ∨
+    ((tryBodyT idna o.rep e units base trace).val = none ∧ o' = o.newUrl.resetRecord ∧ en = .returned false) := by
+  rcases parseFinish_cases ph o.newUrl res spFails o' en hf with ⟨r', h1, _, h3, h4, h5⟩ | ⟨r', h1, h2, h3⟩ | ⟨h1, h2, h3⟩
+  · exact Or.inr (Or.inr (Or.inl ⟨r', by rw [← hval, h1], h3, h4, h5⟩))
+  · exact Or.inr (Or.inr (Or.inr (Or.inl ⟨r', by rw [← hval, h1], h2, h3⟩)))
+  · exact Or.inr (Or.inr (Or.inr (Or.inr ⟨by rw [← hval, h1], h2, h3⟩)))
+
+/-- every way a `do_parse` call with handlers can end, for every schedule -/
+theorem doParseWith_cases (handler ph : ObjR → ObjR) (idna : Idna) (o : ObjR) (e : Enc) (units : List Nat)
+    (base : Option (Option Rep)) (pre : Nat) (trace : List Rep) (k : Option Nat) (o' : ObjR) (en : ParseEnd)
+    (h : doParseWith handler ph idna o e units base pre trace k = (o', en)) :
+    -- an exception before the `try`
+    (o' = o ∧ en = .threw) ∨
+    -- an exception inside `url_parse`: the handler ran on the half-built object
+    (∃ half ∈ trace, o' = handler { o.newUrl with rep := half } ∧ en = .threw) ∨
+    -- an exception in `parse_search_params()`: the parse had succeeded
+    (∃ r', (tryBodyT idna o.rep e units base trace).val = some r' ∧ o.newUrl.sp.isSome = true ∧
+      o' = ph { o.newUrl with rep := r', valid := true } ∧ en = .threw) ∨
+    -- it returned ok
+    (∃ r', (tryBodyT idna o.rep e units base trace).val = some r' ∧
+      o' = { rep := r', valid := true, sp := parseSp r' o.newUrl.sp } ∧ en = .returned true) ∨
+    -- it returned an error
+    ((tryBodyT idna o.rep e units base trace).val = none ∧ o' = o.newUrl.resetRecord ∧ en = .returned false) := by
   unfold doParseWith at h
   simp only at h
   cases k with
-  | none =>
-    simp only at h
-    unfold parseFinish at h
-    split at h
-    · simp at h
-    · simp at h
+  | none => exact doParse_fin handler ph idna o e units base trace o' en _ _ rfl h
   | some i =>
     simp only at h
     split at h
-    · left; exact (Prod.mk.inj h).1.symm
+    · left; exact ⟨(Prod.mk.inj h).1.symm, (Prod.mk.inj h).2.symm⟩
     · split at h
       · rename_i half n hrun
         right; left
         have hm := run_threw_mem _ (some (i - pre)) half (by rw [hrun])
-        exact ⟨half, tryBodyT_pts_sub _ _ _ _ _ _ half hm, (Prod.mk.inj h).1.symm⟩
+        exact ⟨half, tryBodyT_pts_sub _ _ _ _ _ _ half hm, (Prod.mk.inj h).1.symm, (Prod.mk.inj h).2.symm⟩
       · rename_i res n hrun
         have hval : res = (tryBodyT idna o.rep e units base trace).val := by
           unfold X.run at hrun
@@ -180,17 +215,7 @@ theorem doParseWith_threw (handler : ObjR → ObjR) (idna : Idna) (o : ObjR) (e 
           · cases hrun
           · have := (Prod.mk.inj hrun).1
             cases this; rfl
-        unfold parseFinish at h
-        split at h
-        · rename_i r'
-          split at h
-          · rename_i hc
-            right; right
-            simp only [Bool.and_eq_true] at hc
-            exact ⟨r', by rw [← hval], hc.2, (Prod.mk.inj h).1.symm⟩
-          · simp at h
-        · simp at h
-
+        exact doParse_fin handler ph idna o e units base trace o' en _ _ hval h
 
 theorem tryBodyT_pts {base : Option (Option Rep)} (hb : base ≠ some none) (idna : Idna) (r : Rep) (e : Enc)
     (units : List Nat) (trace : List Rep) : (tryBodyT idna r e units base trace).pts = trace := by
@@ -203,10 +228,10 @@ theorem tryBodyT_pts {base : Option (Option Rep)} (hb : base ≠ some none) (idn
     | some rb => rfl
 
 /-- a failure inside the `try`: the handler runs on the half-built object -/
-theorem doParseWith_inside (handler : ObjR → ObjR) (idna : Idna) (o : ObjR) (e : Enc) (units : List Nat)
+theorem doParseWith_inside (handler ph : ObjR → ObjR) (idna : Idna) (o : ObjR) (e : Enc) (units : List Nat)
     {base : Option (Option Rep)} (hb : base ≠ some none) (pre : Nat) (trace : List Rep) (k : Nat)
     (h1 : pre ≤ k) (h2 : k < pre + trace.length) :
-    doParseWith handler idna o e units base pre trace (some k) =
+    doParseWith handler ph idna o e units base pre trace (some k) =
       (handler { o.newUrl with rep := trace.getD (k - pre) Rep.cleared }, .threw) := by
   unfold doParseWith
   simp only
@@ -218,6 +243,31 @@ theorem doParseWith_inside (handler : ObjR → ObjR) (idna : Idna) (o : ObjR) (e
   have : k - pre < trace.length := by omega
   rw [List.getD_eq_getElem?_getD, List.getElem?_eq_getElem this]
   rfl
+
+/-- a failure of `parse_search_params()`: the parse succeeded, the object owns a params object, the
+    primitive after the last one of `url_parse` fails -/
+theorem doParseWith_params (handler ph : ObjR → ObjR) (idna : Idna) (o : ObjR) (e : Enc) (units : List Nat)
+    {base : Option (Option Rep)} (hb : base ≠ some none) (pre : Nat) (trace : List Rep) (r' : Rep)
+    (hp : parseRepOn idna o.rep e units (base.bind id) = some r') (hsp : o.newUrl.sp.isSome = true) :
+    doParseWith handler ph idna o e units base pre trace (some (pre + trace.length)) =
+      (ph { o.newUrl with rep := r', valid := true }, .threw) := by
+  unfold doParseWith
+  simp only
+  rw [if_neg (by omega)]
+  have hge : (tryBodyT idna o.rep e units base trace).pts.length ≤ pre + trace.length - pre := by
+    rw [tryBodyT_pts hb]; omega
+  rw [run_ge _ _ hge]
+  have hv : (tryBodyT idna o.rep e units base trace).val = some r' := by
+    rw [tryBodyT_val]
+    cases base with
+    | none => exact hp
+    | some b =>
+      cases b with
+      | none => exact absurd rfl hb
+      | some rb => exact hp
+  simp only [hv, tryBodyT_pts hb]
+  unfold parseFinish
+  simp [hsp]
 
 /-! ### the two object models -/
 
